@@ -40,9 +40,14 @@ type fallbackGenerator struct {
 	counter uint64
 }
 
+// fallbackGenerators numbers the fallback generators created by this process,
+// so that generators created within one clock reading get distinct prefixes.
+var fallbackGenerators uint64
+
 func NewFallbackGenerator() IGenerator {
+	seq := atomic.AddUint64(&fallbackGenerators, 1)
 	return &fallbackGenerator{
-		prefix: strconv.FormatInt(time.Now().UnixNano(), 36),
+		prefix: strconv.FormatInt(time.Now().UnixNano(), 36) + "." + strconv.FormatUint(seq, 36),
 	}
 }
 
